@@ -23,6 +23,10 @@ from vlib.core import MachineryError
 PID = "C16"
 HDIR = os.path.join(core.HARNESS, "span")
 MODES = {"unchecked": "-DTCB_SPAN_NO_CONTRACT_CHECKING", "throwing": "-DTCB_SPAN_THROW_ON_CONTRACT_VIOLATION"}
+# the same two L1 modes, requested explicitly in a release translation unit (-DNDEBUG): an explicit request must
+# win over the NDEBUG default ("when contract checking is enabled every out-of-range argument is rejected")
+BUILDS = {"unchecked": ["-DTCB_SPAN_NO_CONTRACT_CHECKING"], "throwing": ["-DTCB_SPAN_THROW_ON_CONTRACT_VIOLATION"],
+          "throwing-ndebug": ["-DTCB_SPAN_THROW_ON_CONTRACT_VIOLATION", "-DNDEBUG"]}
 MAXE = 5
 OBSERVERS = {"At", "Index", "Front", "Back", "Cmp", "AsBytes", "ConstFrom"}
 WRITE_PATHS = ("sub", "call", "at", "front", "back", "data", "iter", "riter")
@@ -358,11 +362,16 @@ def run_script(ctx, drv, script_path, trace_path):
     with open(script_path) as fin, open(trace_path, "w") as fout:
         p = subprocess.run([drv], stdin=fin, stdout=fout, stderr=subprocess.PIPE, env=env, timeout=1800)
     if p.returncode == 3:
-        raise MachineryError("harness rejected script %s: %s" % (script_path, p.stderr.decode()[-500:]))
+        # The driver could not follow the script any further ("no such view"): either the script is wrong, or an
+        # earlier call did not do what L1 says (e.g. a valid subspan threw, so the view it should have pushed does
+        # not exist).  The trace ends with a Desync event, which no spec action matches; validation then rejects
+        # the earlier, real deviation first.  A Desync that is itself the first rejection is a machinery error.
+        with open(trace_path, "a") as fout:
+            fout.write(json.dumps({"op": "Desync", "a": {"why": p.stderr.decode()[-300:]}}) + "\n")
 
 
 def build_drivers(ctx, modes):
-    jobs = [{"src": os.path.join(HDIR, "driver.cpp"), "out": os.path.join(ctx.work, "span_driver_" + m), "flags": [MODES[m]]} for m in modes]
+    jobs = [{"src": os.path.join(HDIR, "driver.cpp"), "out": os.path.join(ctx.work, "span_driver_" + m), "flags": BUILDS[m]} for m in modes]
     core.build_many(ctx, jobs)
     return {m: os.path.join(ctx.work, "span_driver_" + m) for m in modes}
 
@@ -481,8 +490,8 @@ def run(ctx):
     if r2["violated"]:
         ctx.drift.append("SpanImpl.tla does not agree with Span.tla (%s); see %s" % (r2["violated"], r2["outfile"]))
 
-    # ---- build the two drivers from the include tree under test
-    drivers = build_drivers(ctx, list(MODES))
+    # ---- build the drivers from the include tree under test (two modes + the explicit request in a release TU)
+    drivers = build_drivers(ctx, list(BUILDS))
     if gnu:
         ctx.notes["compiler_note"] = "g++ cannot compile first<0>()/last<0>() ({data(), 0} is ambiguous); these two calls are not issued"
 
@@ -526,6 +535,11 @@ def run(ctx):
         for i, ch in enumerate(chunk_by_reset(lines, 1 if q else 6)):
             scripts.append(("rnd-%s-%d" % (mode, i), mode, ch))
 
+    # ---- the throwing scripts again on the -DNDEBUG build (random scripts, simulation walks, first S->C chunk)
+    for name, mode, lines in list(scripts):
+        if mode == "throwing" and (name.startswith("rnd-") or name.startswith("sim-") or name == "s2c-throwing-00"):
+            scripts.append((name + "-ndebug", "throwing-ndebug", lines))
+
     # ---- probes for open known findings
     for fnd in findings:
         if "probe" in fnd:
@@ -551,7 +565,18 @@ def run(ctx):
             ctx.sample({"script": [json.dumps(x) for x in ss[0][2][:10]]})
 
     # ---- validate every trace against L1
-    core.validate_traces(ctx, "SpanTrace", "SpanTrace.cfg", traces, classify=classify(findings))
+    cl = classify(findings)
+    desync = []
+
+    def cl2(ev, execution):
+        if ev.get("op") == "Desync":
+            desync.append(ev)
+            return "@desync"
+        return cl(ev, execution)
+    core.validate_traces(ctx, "SpanTrace", "SpanTrace.cfg", traces, classify=cl2)
+    ctx.known[:] = [k for k in ctx.known if k != "@desync"]
+    if desync and not ctx.violations:
+        raise MachineryError("the driver lost track of a script although every earlier event conforms to L1: %s" % desync[0])
     dedupe_violations(ctx)
     ctx.cov["evaluations"] = ctx.cov["events_validated"]
     ctx.log("validated %d events in %d traces (%d executions)" % (ctx.cov["events_validated"], len(traces), ctx.cov["traces_validated_against_impl"]))
